@@ -530,8 +530,16 @@ def aliasFree (g : G) (us : List Nat) : Bool :=
 /-- the fork of region member `n` (new nodes are appended in region order) -/
 def copyIdx (g : G) (region : List Nat) (n : Nat) : Nat := g.nodes.length + region.idxOf n
 
+/-- the subscription `get(s.node)[s.port].subscribe(get(o)[i])` makes: `Subscriptable.subscribe` always creates an
+`Apply` port, `Apply(int(s.port))` -/
 def copyEdge (g : G) (region : List Nat) (e : Edge) : Edge :=
-  ⟨copyIdx g region e.pub, e.out, ⟨copyIdx g region e.sub.node, e.sub.port⟩⟩
+  ⟨copyIdx g region e.pub, e.out, ⟨copyIdx g region e.sub.node, .apply e.sub.port.index⟩⟩
+
+/-- the state after forking `region` (same kind, shape and group) and replaying `es` -/
+def copied (g : G) (region : List Nat) (es : List Edge) : G :=
+  { g with nodes := g.nodes ++ region.map (fun n => g.nodes.getD n default),
+           edges := g.edges ++ es.map (copyEdge g region),
+           ports := g.ports ++ es.map (fun e => (copyEdge g region e).sub) }
 
 /-- `Segment(h, t).copy()`: trace, unwrap a dangling `Future` tail, `Traversal(h).copy(tail)` (fork every node
 on a mapper path from head to tail - same group, same shape - and replay the subscriptions between members of one
@@ -540,7 +548,8 @@ copy of tail)`.
 Deviations: every check is made before the first fork is created (the code forks and subscribes lazily, so a
 refused copy leaves forks behind in the worker groups: finding C11-F4); the final re-tracing of the copy is
 reduced to its shape check; when two different nodes involved compare equal (`Node.__eq__` aliasing inside the
-`copies` dict / `seen` set) the model abstains (`Err.aliased`). -/
+`copies` dict / `seen` set: the tail, the region and the subscribers of the region) the model abstains
+(`Err.aliased`). -/
 def copy (g : G) (h : Nat) (t : Option Nat) : G × Res :=
   match segment g h t with
   | .node tl0 =>
@@ -552,16 +561,12 @@ def copy (g : G) (h : Nat) (t : Option Nat) : G × Res :=
       | .ok ps =>
         let region := regionOf g h ps
         let es := copyEdges g ps
-        if !aliasFree g (region ++ (g.edges.filter (fun e => region.contains e.pub)).map (·.sub.node)) then
+        if !aliasFree g (tl :: region ++ (g.edges.filter (fun e => region.contains e.pub)).map (·.sub.node)) then
           (g, .err .aliased)
-        else if !(decide (es.map (·.sub)).Nodup) then (g, .err .double)
+        else if !(decide (es.map (fun e => (copyEdge g region e).sub)).Nodup) then (g, .err .double)
         else if !region.contains tl then (g, .err .noPath)
         else if (g.nodes.getD tl default).szout > 1 then (g, .err .simpleTail)
-        else
-          ({ g with nodes := g.nodes ++ region.map (fun n => g.nodes.getD n default),
-                    edges := g.edges ++ es.map (copyEdge g region),
-                    ports := g.ports ++ es.map (fun e => (copyEdge g region e).sub) },
-           .segs [(copyIdx g region h, copyIdx g region tl)])
+        else (copied g region es, .segs [(copyIdx g region h, copyIdx g region tl)])
   | r => (g, r)
 
 /-! ### assembly.py : Trunk, Composition -/
